@@ -138,6 +138,12 @@ type element struct {
 	// names can also contain empty strings, which represent joined contexts with no element name.
 	// names will be empty if no context joining occurred.
 	names []string
+	// partial indicates that the tag name was read up to the end of a text node, so that
+	// text which follows directly could continue it.
+	partial bool
+	// continued indicates that text did continue the tag name, e.g. `<s{{/* c */}}cript>`,
+	// so that name is only a prefix of the name of the element.
+	continued bool
 }
 
 // eq reports whether a and b have the same name. All other fields are ignored.
